@@ -162,6 +162,45 @@ def run_model(lines, shards=NPROC, timeout=3600):
     return parsed
 
 
+def crosscheck_vm(lines, k=8, maxlen=20000):
+    """extraction + driver vs the kernel's own evaluation: re-evaluate a sample of request lines with
+    vm_compute inside coqc and compare with what the extracted binary answered (raw text).  Returns
+    (checked, agreed)."""
+    import tempfile
+    cand = sorted({l for l in lines if len(l) < maxlen}, key=len)
+    step = max(1, len(cand) // max(1, k))
+    sample = cand[::step][:k]
+    if not sample:
+        return 0, 0
+    p = subprocess.run([BIN], input="\n".join(sample) + "\n", capture_output=True, text=True, timeout=600)
+    outs = p.stdout.splitlines()
+    sample = [(a, b) for a, b in zip(sample, outs) if len(b) < 4 * maxlen and '"' not in a and '"' not in b]
+    if not sample:
+        return 0, 0
+    body = ["From FV Require Import Base Main.", "Open Scope string_scope."]
+    for a, b in sample:
+        body.append(f'Eval vm_compute in (String.eqb (run_line "{a}") "{b}").')
+    with tempfile.NamedTemporaryFile("w", suffix=".v", prefix="fvx", dir=os.path.join(COQ, "gen"), delete=False) as f:
+        f.write("\n".join(body) + "\n")
+        path = f.name
+    try:
+        q = subprocess.run(["timeout", "600", "coqc", "-Q", "theories", "FV", "-Q", "gen", "FVGen", path],
+                           cwd=COQ, capture_output=True, text=True)
+        agreed = len(re.findall(r"=\s*true", q.stdout))
+        return len(sample), agreed
+    finally:
+        for ext in ("", "o", "ok", "os"):
+            try:
+                os.remove(path + ext if ext else path)
+            except OSError:
+                pass
+        for extra in (path[:-2] + ".glob", os.path.join(os.path.dirname(path), "." + os.path.basename(path)[:-2] + ".aux")):
+            try:
+                os.remove(extra)
+            except OSError:
+                pass
+
+
 # ----------------------------------------------------------------------------- build
 class Build:
     """Result of the build step: which .vo exist and are current, captured errors."""
